@@ -374,6 +374,7 @@ def do_replay(pid, path, tier, seed):
         return v
 
     c = Cex(data["label"], {k: dec(v) for k, v in data["values"].items()}, data.get("detail", ""))
+    c.path = [d[1] if d[0] == "c" else bool(d[1]) for d in data.get("decisions", [])]
     ok, info = case.replay(c)
     print(f"replay property={pid} case={case.name} obligation={c.label} reproduced={ok}\n{info}")
     return 1 if ok else 0
